@@ -362,7 +362,7 @@ class AWorld:
                 r = getattr(self.server, name)(*args)
                 if inspect.isawaitable(r):
                     r = await r
-                c.result = r
+                c.result = dict(r) if isinstance(r, dict) else r     # value at return time
             except BaseException as e:   # noqa
                 c.exc = e
             finally:
